@@ -82,6 +82,8 @@ class C07(HistoryProperty):
         if rng.random() < 0.4:
             focus["callback"] = True
         focus["cache"] = "nocache" if rng.random() < 0.4 else "recording"
+        if not focus.get("abstract") and rng.random() < 0.3:
+            focus["family_factory"] = True  # derived from an ABSTRACT family factory with abstract=False
         if rng.random() < 0.25:
             focus["options"] = g.preset()
         if rng.random() < 0.2:
@@ -277,7 +279,7 @@ class C07(HistoryProperty):
                 for m in names:
                     abstract = any(ifaces[t]["members"].get(m, {}).get("kind") in ("annot", "abstract") for t in targets)
                     if abstract or rng.random() < 0.5:
-                        provided[m] = rng.choice(["fn", "const", "option", "dataset"])
+                        provided[m] = rng.choice(["fn", "const", "option", "dataset", "staticfn"])
                 flaw = rng.random()
                 if flaw < 0.2 and any(provided):
                     abstract_names = [m for m in provided if any(ifaces[t]["members"].get(m, {}).get("kind") in ("annot", "abstract") for t in targets)]
@@ -454,7 +456,8 @@ class C07(HistoryProperty):
                         return ("impl", _t, _m, freeze(a))
 
                     fn.__name__ = m
-                    ns[m] = dataset.nocache(fn) if how == "dataset" else fn
+                    # ("staticfn": the same plain function, written with @staticmethod as one does inside a class body)
+                    ns[m] = dataset.nocache(fn) if how == "dataset" else staticmethod(fn) if how == "staticfn" else fn
             calls_before = rt.CUR.count("body") if rt.CUR is not None else 0
             try:
                 cls = type(op["tag"], (), ns)
